@@ -98,6 +98,7 @@ func ruleReplayOrder(c *Ctx, node string, pe *printerEvents, facts []*parseFacts
 		v.paths++
 		seen := map[string]int{}
 		wroteText := false
+		pendingMap := ""
 		for i, e := range path {
 			switch e.kind {
 			case evComments:
@@ -106,10 +107,15 @@ func ruleReplayOrder(c *Ctx, node string, pe *printerEvents, facts []*parseFacts
 					v.twice[e.field] = true
 				}
 			case evMap:
-				if seen[e.field] == 0 {
-					v.missing[e.field] = true
-				}
+				// the token is used where its text is written: the next text after the mapping
+				pendingMap = e.field
 			case evLit, evText:
+				if pendingMap != "" {
+					if seen[pendingMap] == 0 {
+						v.missing[pendingMap] = true
+					}
+					pendingMap = ""
+				}
 				if !wroteText {
 					wroteText = true
 					// first written byte: some replay must have happened, unless it is a guard parenthesis
